@@ -20,6 +20,7 @@ F8 (the first fragment is copied before the next reader call), without which it 
 import Reader.Frame
 import Lemmas.Message
 import Lemmas.Frame
+import Lemmas.Bufio
 open GoStd Sip Reader Lemmas
 
 namespace Props.C11
@@ -103,6 +104,99 @@ theorem C11_fragments_uncopied_corrupt :
 /-- a line that fits one fragment is never affected -/
 theorem C11_single_fragment (c : Bool) (σ : Bytes → Bytes) (f : Bytes) :
     joinFragments c σ [f] = f := rfl
+
+/-! ### the same over the OPERATIONAL `bufio.Reader` (Reader/Bufio.lean)
+
+`connLoopSegments` above is "bufio at its contract": the segments are concatenated by definition.
+The theorems below discharge that contract. `Reader.Bufio` models the reader as the state machine
+it is (buffer of capacity `N`, one Read of the connection per `fill`, `ReadSlice` / `ReadLine`
+with `ErrBufferFull` fragments and the put-back of a trailing CR, `ReadByte` / `UnreadByte`,
+`Read` under `io.CopyN`) and message.go's `readLine` join loop, `skipWhiteSpace` and
+`ParseMessage` on top of it. For EVERY buffer size `N ≥ 2` (bufio's minimum is 16; the TCP
+transport uses 4096) and EVERY way the connection cuts the stream into Reads, the messages
+extracted are those of the logical stream. -/
+
+/-- a fresh reader on a connection that will deliver `segs`, Read by Read -/
+def fresh (segs : List Bytes) : Bufio.BR := ⟨[], segs⟩
+
+/-- the real loop: the operational reader over a segmented stream, with the fuel the stream allows -/
+def bufioLoop (N : Nat) (cm : List (Bytes × Bytes)) (segs : List Bytes) : List Message :=
+  Bufio.connLoop N cm ((fresh segs).size + 1) (fresh segs)
+
+/-- **The contract, proved**: the operational reader extracts what the logical model extracts from
+the concatenation, for every segmentation and every buffer size. -/
+theorem C11_bufio_refines (N : Nat) (hN : 2 ≤ N) (cm : List (Bytes × Bytes)) (segs : List Bytes) :
+    bufioLoop N cm segs = connLoopSegments cm segs := by
+  unfold bufioLoop connLoopSegments connLoop
+  rw [Lemmas.Bufio.connLoop_spec N hN cm _ (fresh segs) (by simp [Lemmas.Bufio.Inv, fresh])]
+  simp [fresh, Bufio.BR.size, Bufio.BR.logical]
+
+/-- **Only the bytes matter**, now about the reader's real mechanics: two segmentations of the
+same bytes, read through buffers of two (possibly different) sizes, yield the same messages. -/
+theorem C11_bufio_segmentation_independent (N N' : Nat) (hN : 2 ≤ N) (hN' : 2 ≤ N')
+    (cm : List (Bytes × Bytes)) (segs segs' : List Bytes) (h : segs.flatten = segs'.flatten) :
+    bufioLoop N cm segs = bufioLoop N' cm segs' := by
+  rw [C11_bufio_refines N hN, C11_bufio_refines N' hN', C11_segmentation_independent cm segs segs' h]
+
+/-- **Exactly those messages, in order, however the stream is cut into packets and whatever the
+size of the reader's buffer** - header lines longer than the buffer included (`Wire.OK` puts no
+bound on any length). -/
+theorem C11_bufio_any_split_exact (N : Nat) (hN : 2 ≤ N) (cm : List (Bytes × Bytes)) (ws : List Wire)
+    (hok : ∀ w ∈ ws, w.OK cm) (trail : Nat) (segs : List Bytes) (h : segs.flatten = stream ws trail) :
+    bufioLoop N cm segs = ws.map Wire.msg := by
+  rw [C11_bufio_refines N hN, C11_any_split_exact cm ws hok trail segs h]
+
+/-- **Header lines of any length**: message.go's `readLine` over the operational reader returns a
+CR/LF-free line of ANY length exactly, whatever fragments `ReadLine` cut it into (line longer than
+the buffer, CR LF straddling two fragments, segment boundaries anywhere), and leaves the reader
+standing exactly behind the line end. -/
+theorem C11_bufio_readLine_any_length (N : Nat) (hN : 2 ≤ N) (eol line more : Bytes) (heol : EolOK eol)
+    (hcr : (13 : UInt8) ∉ line) (hlf : (10 : UInt8) ∉ line) (segs : List Bytes)
+    (h : segs.flatten = line ++ eol ++ more) :
+    ∃ b', Bufio.readLine N (fresh segs) = some (line, b') ∧ b'.logical = more := by
+  have hlog : (fresh segs).logical = line ++ eol ++ more := by simp [fresh, Bufio.BR.logical, h]
+  have hmem : (10 : UInt8) ∈ (fresh segs).logical := by
+    rw [hlog]
+    rcases heol with rfl | rfl <;> simp
+  obtain ⟨l, b', hr, hfl, _⟩ := Lemmas.Bufio.readLine_lf N hN (fresh segs)
+    (by simp [Lemmas.Bufio.Inv, fresh]) hmem
+  rw [hlog, readLine_eol eol line more heol hcr hlf] at hfl
+  simp only [Option.some.injEq, Prod.mk.injEq] at hfl
+  obtain ⟨rfl, hm⟩ := hfl
+  exact ⟨b', hr, hm.symm⟩
+
+/-- the UDP parse step builds its reader over the datagram's `n` bytes with a buffer of `n` bytes
+(bufio raises that to 16): same result as the logical model -/
+theorem C11_bufio_udp (cm : List (Bytes × Bytes)) (buf : Bytes) (n : Nat) :
+    (Bufio.parseMessage (max n 16) cm (fresh [buf.take n])).map (·.1) = udpParse cm buf n := by
+  obtain ⟨h1, _⟩ := Lemmas.Bufio.parseMessage_spec (max n 16) (by omega) cm (fresh [buf.take n])
+    (by simp [Lemmas.Bufio.Inv, fresh])
+  have hlog : (fresh [buf.take n]).logical = buf.take n := by simp [fresh, Bufio.BR.logical]
+  rw [hlog] at h1
+  unfold udpParse
+  cases hp : Bufio.parseMessage (max n 16) cm (fresh [buf.take n]) with
+  | none =>
+    rw [hp] at h1
+    cases hf : Sip.parseMessage cm (buf.take n) with
+    | error => rfl
+    | ok m rest => rw [hf] at h1; simp [Lemmas.Bufio.flatResult] at h1
+  | some r =>
+    rw [hp] at h1
+    cases hf : Sip.parseMessage cm (buf.take n) with
+    | error => rw [hf] at h1; simp [Lemmas.Bufio.flatResult] at h1
+    | ok m rest =>
+      rw [hf] at h1
+      simp only [Option.map_some, Lemmas.Bufio.flatResult, Option.some.injEq, Prod.mk.injEq] at h1
+      simp [h1.1]
+
+/-- non-vacuity of the operational model: a 16-byte reader, the stream cut into Reads of 1, 2 and
+19 bytes, a 15-byte line whose CR is the buffer's 16th byte and whose LF comes with the next Read:
+the CR is put back, the second fragment is the bare CR LF, one line comes out. -/
+example :
+    (Bufio.readLine 16 (fresh [[65], [66, 67], [68, 69, 70, 71, 72, 73, 74, 75, 76, 77, 78, 79, 13, 10, 88, 89, 90, 48, 49]])).map
+      (fun x => (x.1, x.2.logical))
+    = some ([65, 66, 67, 68, 69, 70, 71, 72, 73, 74, 75, 76, 77, 78, 79], [88, 89, 90, 48, 49]) := by
+  decide
 
 /-! ### non-vacuity -/
 
